@@ -244,7 +244,19 @@ class Impl:
         elif kind == "memmap":
             self.nmm += 1
             before = self.leaf_snapshot(ev[1])
-            self.nodes[ev[1]].memmap_(str(self.scratch / f"m{self.nmm}"))
+            # the option combinations of memmap_: sequential, threaded, threaded + return_early (the result comes out of `TensorDictFuture.result()`,
+            # which has to build the lock graph like the sequential path)
+            variant = (self.nmm + len(self.nodes)) % 3
+            path = str(self.scratch / f"m{self.nmm}")
+            if variant == 0:
+                self.nodes[ev[1]].memmap_(path)
+            elif variant == 1:
+                self.nodes[ev[1]].memmap_(path, num_threads=2)
+            else:
+                fut = self.nodes[ev[1]].memmap_(path, num_threads=2, return_early=True)
+                out = fut.result()
+                if out is not self.nodes[ev[1]]:
+                    raise RuntimeError("memmap_(return_early=True).result() is not the tensordict itself")
             self.leaf_restore(before)
         elif kind == "gc":
             i = ev[1]
